@@ -10,3 +10,4 @@ import Stingray.Model.Decode
 import Stingray.Driver.Decode
 import Stingray.Model.Layout
 import Stingray.Driver.Layout
+import Stingray.Model.Odo
